@@ -327,7 +327,20 @@ def header_signature(ctx, P, f):
     tb = TermBuilder(f, P)
     g = GuardAnalysis(f, P)
     sig = {}
-    cons = [c for c in constructions(P, CR, "dp::peripheral::DiagnosticsInfo") if c["fn"] is f]
+    all_cons = constructions(P, CR, "dp::peripheral::DiagnosticsInfo")
+    cons = [c for c in all_cons if c["fn"] is f]
+    guard_site = None
+    if not cons:
+        # the header decoding may live in a private helper called by the decoder: field extraction is read off the helper, the
+        # admission guards off the call site
+        for b_, c_ in call_sites(f):
+            h = P.get(CR, c_.get("callee") or "")
+            if h is not None and len([c for c in all_cons if c["fn"] is h]) == 1:
+                cons = [c for c in all_cons if c["fn"] is h]
+                guard_site = (b_, None)
+                tb = TermBuilder(h, P)
+                g_h = GuardAnalysis(h, P)
+                break
     if len(cons) != 1:
         return None, "expected exactly one DiagnosticsInfo construction, found %d" % len(cons)
     c = cons[0]
@@ -343,7 +356,7 @@ def header_signature(ctx, P, f):
     sig["ident_ctor"] = idn[1].split("::")[-1] if idn[0] == "call" else show(idn)
     sig["ident_src"] = norm(idn[2][0]) if idn[0] == "call" and idn[2] else "?"
     # master address: multi-def local assigned None / Some(pdu[3]) under pdu[3] == 255
-    S = g.at(c["b"], c["i"])
+    S = (g_h if guard_site is not None else g).at(c["b"], c["i"])
     ma = set()
     for fs in S:
         d = None
@@ -354,8 +367,13 @@ def header_signature(ctx, P, f):
             if k[0] == "cmp" and k[1] == "eq" and ("const", DG["no_master"]) in (k[2], k[3]):
                 other = k[3] if k[2] == ("const", DG["no_master"]) else k[2]
                 cmpv = (norm(other), tuple(sorted(vs[1])))
+            elif k[0] not in ("cmp", "discr", "count") and isinstance(vs[1], frozenset) and vs[1] == frozenset([DG["no_master"]]) and norm(k).endswith("pdu[3]"):
+                # `match pdu[3] { 255 => .., other => .. }`: a value test instead of a comparison
+                cmpv = (norm(k), (vs[0] == "in",))
         ma.add((d, cmpv))
     sig["master"] = sorted(map(str, ma))
+    if guard_site is not None:
+        S = g.at(guard_site[0])
     # guards on every path to the construction
     gs = []
     for what, kp, allowed in (
